@@ -195,6 +195,11 @@ where
                 });
 
                 tokio::select! {
+                    // A result that is already there always wins over the timer: without
+                    // `biased` a call polled late (at or after its deadline) could report a
+                    // timeout although the inner call had finished in time
+                    biased;
+
                     result = rx => {
                         // Task completed - unwrap the channel result
                         result.ok()
